@@ -2240,7 +2240,18 @@ impl<'a, 'b, W: Write> SerializeTupleStruct for TupleSer<'a, 'b, W> {
                         if self.ser.in_flow == 0 {
                             // Stage the comment so scalar/alias serializers append it inline via write_end_of_scalar.
                             if !comment.is_empty() {
-                                let sanitized = comment.replace('\n', " ");
+                                // A comment ends at the first line break; NUL ends the parser's
+                                // input. Neither may cut the comment short and let the rest of
+                                // it be read as content.
+                                let sanitized: String = comment
+                                    .chars()
+                                    .map(|c| match c {
+                                        '\t' => c,
+                                        '\u{2028}' | '\u{2029}' | '\u{FEFF}' => ' ',
+                                        c if c.is_control() => ' ',
+                                        c => c,
+                                    })
+                                    .collect();
                                 self.ser.pending_inline_comment = Some(sanitized);
                             }
                             // Serialize the inner value as-is. Complex values will ignore the comment (it will be cleared).
